@@ -4,8 +4,9 @@ Bridge lemmas, part 5 (C17): `Spec.Find.WFForest` of the forest a clean `process
 
 * tree ids are not repeated: `toEntry` files a (sub)module's entry in the cache only when the cache
   has none, and a (sub)module whose conversion is in progress is not converted again (the `visiting`
-  check) — so the cache keys are distinct (`cacheKeys` relation, for registries with distinct sequence
-  numbers); every later stage rewrites trees in place (`Forest.setTree`, `map`), keeping the key list;
+  check) — so the cache keys are distinct (`tstate_ckeys_nodup` in Lemmas/Bridge.lean, for registries
+  with distinct sequence numbers); every later stage rewrites trees in place (`Forest.setTree`, `map`),
+  keeping the key list;
 * every tree satisfies `wfKeys`: C04's `KeysUnique` and the predicate `gq` of Lemmas/BridgeNames.lean.
 -/
 set_option linter.unusedVariables false
